@@ -2,6 +2,8 @@ import ScenicModel.Props.C10Peg
 import ScenicModel.Props.C10Front
 import ScenicModel.Gen.PegGrammarC10
 import ScenicModel.Gen.FrontStateC10
+import ScenicModel.Props.C10ErrLoc
+import ScenicModel.Gen.ErrLocC10
 /-! # C10 — the front end is total: property theorems instantiated on the data regenerated from /repo
 
 Full statement of the property (properties.jsonl):
@@ -100,5 +102,32 @@ theorem front_no_frame_left (o : Opts) (ts : List Tok) : (runTop frontData o ts)
 example : (runTop frontData ⟨true, true⟩
     [Tok.write 0, Tok.openImp, Tok.probe, Tok.openTop ⟨true, false⟩ true, Tok.close, Tok.fail, Tok.close, Tok.write 0]).st
     = St.inactive := front_state_restored _ _
+
+/-! ## error-location layer (Model/ErrLoc.lean) on the data regenerated from the generated parser -/
+open Scenic.ErrLoc in
+/-- side condition, re-decided on every run: reported line = `start[0]`, TokenError wrapper reports the line, every helper
+    is protected (KeyError fallback from a start line, or all source lines pre-loaded) -/
+theorem gen_errloc_ok : Scenic.Gen.errLocData.ok = true := by decide
+
+open Scenic.ErrLoc in
+/-- for every history of fetched tokens of an `N`-line text and arguments drawn from it, every error helper of the current
+    parser builds its syntax error without `KeyError`, on a line in `[1, N+1]` -/
+theorem scenic_error_helpers_located (N : Nat) (h : List ErrLoc.Tok) (a : ErrLoc.Args)
+    (hwf : ∀ t ∈ h, t.wf N = true) (hne : h ≠ [])
+    (h1 : a.f1 ∈ h) (h2 : a.l1 ∈ h) (h3 : a.f2 ∈ h) (h4 : a.l2 ∈ h) :
+    ∀ hp ∈ Scenic.Gen.errLocData.helpers,
+      ∃ line fb, runHelper Scenic.Gen.errLocData N h hp a = .ok line fb ∧ 1 ≤ line ∧ line ≤ N + 1 :=
+  table_located _ gen_errloc_ok N h a hwf hne h1 h2 h3 h4
+
+open Scenic.ErrLoc in
+theorem scenic_token_error_line (a b : Nat) : tokenErrorLine Scenic.Gen.errLocData a b = a :=
+  tokenError_line _ gen_errloc_ok a b
+
+open Scenic.ErrLoc in
+example : ∃ hp, hp ∈ Scenic.Gen.errLocData.helpers := by
+  have h := gen_errloc_ok
+  cases hh : Scenic.Gen.errLocData.helpers with
+  | nil => simp [Data.ok, hh] at h
+  | cons x xs => exact ⟨x, by simp⟩
 
 end Scenic.C10
